@@ -797,11 +797,22 @@ def read_cache_entry(
         name, _consumed = _decompress_path_from_stream(f, previous_path)
     else:
         # Versions < 4: regular name reading
+        name_start = f.tell()
         name = f.read(flags & FLAG_NAMEMASK)
+        if flags & FLAG_NAMEMASK == FLAG_NAMEMASK:
+            # Length field saturated: the name is NUL-terminated and may be
+            # longer than 0xFFF bytes
+            while True:
+                c = f.read(1)
+                if not c:
+                    raise ValueError("Unexpected end of file while reading long name")
+                if c == b"\0":
+                    break
+                name += c
 
     # Padding:
     if version < 4:
-        real_size = (f.tell() - beginoffset + 8) & ~7
+        real_size = (name_start + len(name) - beginoffset + 8) & ~7
         f.read((beginoffset + real_size) - f.tell())
 
     return SerializedIndexEntry(
